@@ -25,8 +25,8 @@ INVARIANT Conforms
 def run(ctx):
     q = ctx.quick
     ctx.rule = ("TLC enumerates every valid configuration of SaveLoad.tla (4 model kinds x dimension 1-3 given or not x source "
-                "dimension unspecified / 0 / 1 / 2 x noise default / scalar / diagonal x named or default features x instance "
-                "name = kind or custom x origin fit or hand-written file: 1980 configurations) and checks SurvivesSaveLoad on the "
+                "dimension unspecified / 0 / 1 / 2 x noise default / scalar / diagonal x named, default or integer-labelled features x instance "
+                "name = kind or custom x origin fit or hand-written file: 2970 configurations) and checks SurvivesSaveLoad on the "
                 "intended design and SurvivesExceptNamed on the as-built one (three named deviations); configurations are "
                 "executed on the real code (tiny fit, save, load, optional hand-edited file, re-save): population variables at "
                 "prior modes after the fit, derived values consistent with the saved parameters, load outcome, parameters / "
@@ -49,11 +49,11 @@ def run(ctx):
         # covering sample: every kind, every deviation, both origins
         pick, seen = [], set()
         for c in cs:
-            key = (c["kind"], c["iname"], c["origin"], c["noise"], c["dim"] == 1 and not c["dimgiven"])
+            key = (c["kind"], c["iname"], c["origin"], c["noise"], c["dim"] == 1 and not c["dimgiven"], c["feats"] if c["origin"] in ("fit", "hand") else "-")
             if key not in seen:
                 seen.add(key)
                 pick.append(c)
-        cs = pick[:80]
+        cs = pick[:150]
     recs = [sl.run_case(c, rnd, tmp) for c in cs]
     for r in recs:
         ctx.case(key=tuple(r[k] for k in ("kind", "dim", "dimgiven", "src", "noise", "feats", "iname", "origin")))
